@@ -214,8 +214,18 @@ fn many_case(n_updates: usize, n_rects: usize, user_id: u16) -> Case {
     Case { pdus: vec![Pdu { updates, first: 0, long_len: true }, Pdu { updates: vec![FpUpdate::Bitmap(vec![tiny(7)])], first: 0, long_len: false }], chunk: 0, user_id, queued: false }
 }
 
+/// the generator without the PDUs of hundreds of elements (each costs milliseconds: a coverage-guided campaign that
+/// keeps them in its corpus crawls); those are covered by the many-elements section and by `decode`
+pub fn decode_light(s: &mut Src) -> Case {
+    decode_inner(s, false)
+}
+
 pub fn decode(s: &mut Src) -> Case {
-    if s.chance(2) {
+    decode_inner(s, true)
+}
+
+fn decode_inner(s: &mut Src, many: bool) -> Case {
+    if many && s.chance(2) {
         let nu = s.pick(&[1usize, 2, 255, 256, 257, 300, 600]);
         let nr = s.pick(&[1usize, 255, 256, 257, 300, 511, 512, 513, 900]);
         // the PDU must fit the 15-bit fast-path length
